@@ -245,9 +245,16 @@ inline bool read_scenario(std::istream &in, Scenario &sc) {
 struct alloc_stats {
     static inline thread_local long news = 0;
     static inline thread_local long deletes = 0;
+    static inline thread_local int paused = 0;     // >0: harness-side code, allocations not attributed
     static inline std::atomic<long> g_news{0};
     static inline std::atomic<long> g_deletes{0};
     static inline std::atomic<long> g_live_bytes{0};
+};
+
+// RAII: allocations made while an alloc_pause is alive (harness bookkeeping) are not counted
+struct alloc_pause {
+    alloc_pause() { alloc_stats::paused++; }
+    ~alloc_pause() { alloc_stats::paused--; }
 };
 
 // ---------------------------------------------------------------------------------------------
@@ -265,6 +272,8 @@ public:
     bool check(std::size_t k, const J &got) {
         const Step &st = _sc.steps[k];
         std::string g = got.dump();
+        static const bool trace = getenv("REPLAY_TRACE") != nullptr;
+        if (trace) { fprintf(stderr, "STEP %s %zu %s %s\n", _sc.id.c_str(), k, st.label.c_str(), g == st.expected ? "match" : "MISMATCH"); fflush(stderr); }
         if (g != st.expected) {
             printf("DIVERGE %s step=%zu action=%s expected=%s got=%s\n", _sc.id.c_str(), k, st.label.c_str(),
                    st.expected.c_str(), g.c_str());
@@ -315,8 +324,10 @@ int replay_main(std::istream &in, Fn &&run) {
 void *operator new(std::size_t sz) {
     void *p = malloc(sz ? sz : 1);
     if (!p) throw std::bad_alloc();
-    rp::alloc_stats::news++;
-    rp::alloc_stats::g_news.fetch_add(1, std::memory_order_relaxed);
+    if (!rp::alloc_stats::paused) {
+        rp::alloc_stats::news++;
+        rp::alloc_stats::g_news.fetch_add(1, std::memory_order_relaxed);
+    }
     return p;
 }
 void *operator new[](std::size_t sz) { return operator new(sz); }
